@@ -235,7 +235,7 @@ func runC08(tier string) int {
 	r.Assume("an inline body must be emitted exactly like 'script(local) <name> { body }' (differential; C01 decides the behaviour of script statements)",
 		"inline names are <map>_<TYPE> and <map>_<TYPE>_<index>; hoisted labels are compared by the data they denote, so a text shared between inline scripts may be owned by either")
 	return r.Finish(r.Get("evaluations"), r.Get("nontrivial"),
-		"every mapscripts statement with <= N entries over {plain, plain naming an inline script of the same statement, inline with 12 body kinds incl. several moves() lists and texts in one inline script and the same characters as a plain and as a braille text in different inline scripts, arguments that contain '%', table with <= T entries over plain / inline entries with simple and multi-token var/value (the multi-token ones mention constants)} x scope {none, global, local} x optimize on/off, incl. the empty statement and empty tables; plus tables with K entries and headers with K entries for every K up to the bound in the coverage; each statement also compiled with every dispensable white space removed; header, table and inline-script blocks are compared with the generator's expectation and with the standalone compilation of the same body; non-trivial = the statement has a table and an inline entry")
+		"every mapscripts statement with <= N entries over {plain, plain naming an inline script of the same statement, inline with 12 body kinds incl. several moves() lists and texts in one inline script and the same characters as a plain and as a braille text in different inline scripts, arguments that contain '%', table with <= T entries over plain / inline entries with simple and multi-token var/value (the multi-token ones mention constants)} x scope {none, global, local} x optimize on/off, incl. the empty statement and empty tables and tables whose later rows repeat an earlier row exactly; plus tables with K entries and headers with K entries for every K up to the bound in the coverage; each statement also compiled with every dispensable white space removed; header, table and inline-script blocks are compared with the generator's expectation and with the standalone compilation of the same body; non-trivial = the statement has a table and an inline entry")
 }
 
 func c08Eval(r *harness.Run, entries []c08Entry, scope string, opt bool, sw map[string]string) {
